@@ -9,7 +9,7 @@ func init() {
 	register(&Property{
 		ID:          "C01",
 		Explanation: "Decided (necessary conditions, all inputs/histories): key agreement along the whole value path (K1 literal shapes, K2 accessor-argument table over every containerStore/containerWriter call site, X-visit-extract: keys registered by Provide = keys written by Extract); each executor calls the node's own function, not in a loop, with result #0 of BuildList on its own parameter list in its own view and only after BuildList succeeded (M-args); Invoke returns nil only after having called the function (M-once); zero values only for optional parameters with no provider / missing dependencies (G-optzero); staged results committed to the home scope, providers called with their own OrigScope (HOME-VIEW); provider/decorator executions are triggered only by lookups under the parameter's own key (T-provenance); every delivered value is read from a scope store (T-same-instance). NOT decided: that the values are right for every history (cache staleness, which decorator is nearest at run time).",
-		Rules:       []RuleFn{ruleK1("K1"), ruleK2("K2"), ruleVisitExtract("X-visit-extract"), ruleMArgs("M-args"), ruleMOnce("M-once"), ruleOptZero("G-optzero"), ruleHomeView("HOME-VIEW"), ruleProvenance("T-provenance"), ruleSameInstance("T-same-instance")},
+		Rules:       []RuleFn{ruleK1("K1"), ruleK2("K2"), ruleVisitExtract("X-visit-extract"), ruleMArgs("M-args"), ruleMOnce("M-once"), ruleOptZero("G-optzero"), ruleHomeView("HOME-VIEW"), ruleProvenance("T-provenance"), ruleSameInstance("T-same-instance"), ruleDecFirst("M-dec-first"), ruleMShallow("M-shallow"), ruleVisitRecords("X-visit-records"), ruleNoEarlyExit("L-no-early-exit")},
 	})
 	register(&Property{
 		ID:          "C02",
@@ -19,7 +19,7 @@ func init() {
 	register(&Property{
 		ID:          "C03",
 		Explanation: "Decided completely (modulo the trusted base): in the sound CHA call graph of the whole program, refined only by dropping signature-matched edges to closures whose value never escapes, no exported function or method of dig other than Invoke can reach a user-code sink (call through an invokerFn, call of a Callback, reflect.Value.Call) - Provide, Decorate, Scope, Visualize, String, New, option constructors, RootCause, IsCycleDetected, CanVisualizeError never execute user functions; option interfaces are sealed. Also decided: executions are triggered only by lookups under the parameter's own key (T-provenance), soft groups call no provider (G-soft), the consumer runs only after BuildList succeeded (M-args). NOT decided: that every not-yet-built constructor in the closure has run when Invoke succeeds (liveness); fmt calling String()/Error() of user values is not 'executing user-supplied functions' in the property's sense.",
-		Rules:       []RuleFn{ruleWReach("W-reach", "CHA"), ruleSealedOptions("X-sealed"), ruleProvenance("T-provenance"), ruleSoft("G-soft"), ruleMArgs("M-args")},
+		Rules:       []RuleFn{ruleWReach("W-reach", "CHA"), ruleSealedOptions("X-sealed"), ruleProvenance("T-provenance"), ruleSoft("G-soft"), ruleMArgs("M-args"), ruleNoEarlyExit("L-no-early-exit"), ruleVisitRecords("X-visit-records")},
 	})
 	register(&Property{
 		ID:          "C04",
@@ -29,7 +29,7 @@ func init() {
 	register(&Property{
 		ID:          "C05",
 		Explanation: "Decided: arguments are built only in a view whose graph was verified acyclic (M-acyclic-view, typestate over isVerifiedAcyclic / IsAcyclic / nil-means-verified summaries); the verified flag is sound (true only after IsAcyclic on the same scope; every scope of the affected subtree reset after providers change; G-flag); without deferral every scope of the subtree is checked and every IsAcyclic failure becomes an error wrapping cycleDetectedError(cycle) (M-acyclic-provide); errCycleDetected is constructed only for such failures and IsCycleDetected is exactly errors.As on it (W-cycleerr); the orders invariant holds for every node type flowing into graphNode.Wrapped at every place a scope acquires a node (X-orders); graph edges and run-time resolution dispatch over the same parameter kinds with all-ancestors accessors (X-switch, K2); the DFS marks before exploring and recurses only into unvisited nodes (G-dfs); decorator re-entry is guarded (G-onstack). NOT decided: correctness of the reported path, exhaustiveness over digraphs (an enumeration - different technique), stack depth bounds.",
-		Rules:       []RuleFn{ruleAcyclicView("M-acyclic-view"), ruleFlagSound("G-flag"), ruleAcyclicProvide("M-acyclic-provide"), ruleCycleErr("W-cycleerr"), ruleOrders("X-orders"), ruleDFS("G-dfs"), ruleSwitch("X-switch"), ruleK2("K2"), ruleOnStack("G-onstack")},
+		Rules:       []RuleFn{ruleAcyclicView("M-acyclic-view"), ruleFlagSound("G-flag"), ruleAcyclicProvide("M-acyclic-provide"), ruleCycleErr("W-cycleerr"), ruleOrders("X-orders"), ruleDFS("G-dfs"), ruleSwitch("X-switch"), ruleK2("K2"), ruleOnStack("G-onstack"), ruleEdges("X-edges")},
 	})
 	register(&Property{
 		ID:          "C06",
@@ -44,22 +44,22 @@ func init() {
 	register(&Property{
 		ID:          "C08",
 		Explanation: "Decided: no function reachable from resolution reads Scope.childScopes - navigation is only up through parentScope, nearest first (W-scopes); Export re-targets the home scope to the root exactly under opts.Exported while the original scope stays the receiver and is what providers are called with (W-scopes, HOME-VIEW); propagation reaches the whole subtree (appendSubscopes/newGraphNode recursion) and child scopes created later copy all nodes with their orders (X-orders); option-settable configuration is inherited by children (X-inherit). NOT decided: 'nearest wins' as an outcome beyond the first-hit loop structure; value caching across scopes.",
-		Rules:       []RuleFn{ruleScopes("W-scopes"), ruleHomeView("HOME-VIEW"), ruleOrders("X-orders"), ruleInherit("X-inherit"), ruleK2("K2")},
+		Rules:       []RuleFn{ruleScopes("W-scopes"), ruleHomeView("HOME-VIEW"), ruleOrders("X-orders"), ruleInherit("X-inherit"), ruleK2("K2"), ruleMArgs("M-args"), ruleMShallow("M-shallow"), ruleDecFirst("M-dec-first"), ruleEdges("X-edges")},
 	})
 	register(&Property{
 		ID:          "C09",
 		Explanation: "Decided: key literals set t and at most one of name/group, accessor kinds and map kinds agree (K1); every accessor call site passes (discriminator, type) of one IR object in the shape its counterpart uses (K2); group names are never empty where they enter the IR, so group and unnamed keys cannot coincide in the shared providers map (K3); every name key, including As keys, passes the duplicate check against the constructor's own keys and the home scope's providers, name and group are mutually exclusive at all three entry points, Provide registers only after validation (G-dupkey); registered keys = written keys (X-visit-extract). NOT decided: the As-replaces-concrete-type convention as an outcome, pointer sharing among As keys.",
-		Rules:       []RuleFn{ruleK1("K1"), ruleK2("K2"), ruleK3("K3"), ruleDupKey("G-dupkey"), ruleVisitExtract("X-visit-extract")},
+		Rules:       []RuleFn{ruleK1("K1"), ruleK2("K2"), ruleK3("K3"), ruleDupKey("G-dupkey"), ruleVisitExtract("X-visit-extract"), ruleVisitRecords("X-visit-records")},
 	})
 	register(&Property{
 		ID:          "C10",
 		Explanation: "Decided: group accessors agree on (Group, Type.Elem()) / (Group, Type) conventions (K2); callGroupProviders calls every provider of every enclosing scope and the concatenation visits every enclosing scope - no exit other than an error (L-no-early-exit); feeders run at most once and submit through one staged commit (E-TS, E-stage, HOME-VIEW); each value map has one writer, getValueGroup hands out a fresh copy (W-owners, L-no-early-exit); the returned slice is assembled only from getValueGroup(pt.Group, pt.Type.Elem()) (T-same-instance); group providers are found only under the parameter's own key (T-provenance). NOT decided: the multiset itself; that the shuffle is a permutation (trusts rand.Perm).",
-		Rules:       []RuleFn{ruleK2("K2"), ruleNoEarlyExit("L-no-early-exit"), ruleTypestate("E-TS"), ruleStaging("E-stage"), ruleHomeView("HOME-VIEW"), ruleWOwners("W-owners"), ruleSameInstance("T-same-instance"), ruleProvenance("T-provenance")},
+		Rules:       []RuleFn{ruleK2("K2"), ruleNoEarlyExit("L-no-early-exit"), ruleTypestate("E-TS"), ruleStaging("E-stage"), ruleHomeView("HOME-VIEW"), ruleWOwners("W-owners"), ruleSameInstance("T-same-instance"), ruleProvenance("T-provenance"), ruleVisitExtract("X-visit-extract"), ruleVisitRecords("X-visit-records")},
 	})
 	register(&Property{
 		ID:          "C11",
 		Explanation: "Decided: in paramGroupedSlice.Build every call that can reach a constructor execution other than through a decorator execution is dominated by !Soft; Soft is set only from parseGroupString's \"soft\" option and is consumed (rejected) on results (G-soft, X-encodings/X-group-parse). NOT decided: the clause 'contains all members of earlier executions and of sibling fields' - it depends on the run-time effect of the field reordering in paramObject.Build; a static recogniser for 'soft fields are built last' would be tied to today's spelling and fire on equivalent rewrites, so none is armed.",
-		Rules:       []RuleFn{ruleSoft("G-soft"), ruleEncodings("X-encodings")},
+		Rules:       []RuleFn{ruleSoft("G-soft"), ruleEncodings("X-encodings"), ruleSoftLast("L-soft-last"), ruleIRImmutable("X-ir-immutable")},
 	})
 	register(&Property{
 		ID:          "C12",
@@ -74,17 +74,17 @@ func init() {
 	register(&Property{
 		ID:          "C14",
 		Explanation: "Decided: (P1) in every public entry the user function reaches dig code or reflect.ValueOf only after the untyped-nil and Kind()==Func checks; (E-REFL) each of the ~60 partial reflect operations in non-test code is discharged by a dominating Kind test on the same value (path-sensitive where the test is correlated with a flag), a function contract checked at every call site, a field invariant checked where the IR value is constructed, or the IsIn/IsOut=>struct implication; a handful is listed as assumed with its reason; group names are non-empty (K3, otherwise an invalid reflect.Value reaches Call); the discarded-ok lookups rest on K2 + X-visit-extract; rejected input changes nothing (E-ATOM). NOT decided: panics from indexing, nil maps, reflect.Value.Set assignability, user String() methods; nil option values; String() of option values.",
-		Rules:       []RuleFn{ruleP1("P1"), ruleRefl("E-REFL"), ruleK3("K3"), ruleK2("K2"), ruleVisitExtract("X-visit-extract"), ruleAtomProvide("E-ATOM"), ruleAtomDecorate("E-ATOM")},
+		Rules:       []RuleFn{ruleP1("P1"), ruleRefl("E-REFL"), ruleK3("K3"), ruleK2("K2"), ruleVisitExtract("X-visit-extract"), ruleVisitRecords("X-visit-records"), ruleAtomProvide("E-ATOM"), ruleAtomDecorate("E-ATOM")},
 	})
 	register(&Property{
 		ID:          "C15",
 		Explanation: "Decided: both encodings are lowered to one IR and everything downstream is structural recursion over it - the value sets of the param/result interfaces are computed and every dispatcher handles them or has a reasoned exception; dispatchers and Dot*/Build/Extract iterate the same child slices in order (X-switch); the variadic parameter and error results are dropped by exactly the intended conditions, the name/group option and tag reach the same IR fields through the same parser with the same validations (X-encodings). NOT decided: the equivalence itself (a relation between two programs' behaviours).",
-		Rules:       []RuleFn{ruleSwitch("X-switch"), ruleEncodings("X-encodings")},
+		Rules:       []RuleFn{ruleSwitch("X-switch"), ruleEncodings("X-encodings"), ruleMissingPredicate("G-missing"), ruleIRImmutable("X-ir-immutable")},
 	})
 	register(&Property{
 		ID:          "C16",
 		Explanation: "Decided: the orders invariant - the structural reason why the creation time of a child scope cannot matter (X-orders); deferAcyclicVerification is read only to skip the IsAcyclic block of provide and is copied to children; on the Provide path providers are read only for the duplicate check of the constructor's own results and by cycle detection, decorators are never read; on the Decorate path providers are never read (W-orderfree); the verified flag is reset for the whole subtree on every change, deferred or not (G-flag). NOT decided: equality of wiring under permutation (relational).",
-		Rules:       []RuleFn{ruleOrders("X-orders"), ruleOrderFree("W-orderfree"), ruleFlagSound("G-flag")},
+		Rules:       []RuleFn{ruleOrders("X-orders"), ruleOrderFree("W-orderfree"), ruleFlagSound("G-flag"), ruleIRImmutable("X-ir-immutable")},
 	})
 	register(&Property{
 		ID:          "C17",
@@ -94,12 +94,12 @@ func init() {
 	register(&Property{
 		ID:          "C18",
 		Explanation: "Decided: each Input/Output literal copies every attribute of one list element and is stored at that element's index; the Info slices are sized by and derived from the registered node's own flattened parameter/result lists; Info.ID is the node id, which is the function's code pointer (X-info); Info fields are written after the last error exit of Provide/Decorate (E-ATOM); Dot*/leaves iterate children in order, leaves yield 1 resp. 1+len(As) entries (X-info, X-switch); variadic parameters and error results never enter the IR (X-encodings). NOT decided: uniqueness of code pointers for closures (a Go runtime fact).",
-		Rules:       []RuleFn{ruleInfo("X-info"), ruleAtomProvide("E-ATOM"), ruleAtomDecorate("E-ATOM"), ruleSwitch("X-switch"), ruleEncodings("X-encodings")},
+		Rules:       []RuleFn{ruleInfo("X-info"), ruleAtomProvide("E-ATOM"), ruleAtomDecorate("E-ATOM"), ruleSwitch("X-switch"), ruleEncodings("X-encodings"), ruleIRImmutable("X-ir-immutable")},
 	})
 	register(&Property{
 		ID:          "C19",
 		Explanation: "Decided: addNodes adds one cluster per element of s.nodes with that constructor's own lists and covers every scope; s.nodes grows only at provide's commit point; every non-constant Fprintf argument of the DOT writers is quoted or structurally safe; every argument of an HTML-like label format is html-escaped; edges are dashed exactly for optional parameters; CanVisualizeError and updateGraph agree on the errVisualizer chain walk and its three implementers (X-viz, E-ATOM, W-owners). NOT decided: failure colouring and pruning (run-time graph algorithm), exact node and edge sets.",
-		Rules:       []RuleFn{ruleViz("X-viz"), ruleAtomProvide("E-ATOM"), ruleWOwners("W-owners")},
+		Rules:       []RuleFn{ruleViz("X-viz"), ruleAtomProvide("E-ATOM"), ruleWOwners("W-owners"), ruleRootCauseSiblings("X-rootcause")},
 	})
 	register(&Property{
 		ID:          "C20",
